@@ -234,7 +234,9 @@ def kkt_residual_computation(
     res = opt_problem.database.get_function_value(KKT_RESIDUAL_NORM, x_vect)
     if res is not None:
         return res
-    lagrange = LagrangeMultipliers(opt_problem)
+    # The residual is computed while a driver is running:
+    # the counter of evaluations must not be reset.
+    lagrange = LagrangeMultipliers(opt_problem, reset_counters=False)
     if opt_problem.constraints:
         lagrange.compute(x_vect, ineq_tolerance=ineq_tolerance)
         res = lagrange.kkt_residual + lagrange.constraint_violation
